@@ -96,8 +96,8 @@ Fixpoint fpts (l : list float) : list (V3 float) :=
 Definition zf (z : Z) : float := PrimFloat.of_uint63 (Uint63.of_Z z).
 Definition nf (n : N) : float := zf (Z.of_N n).
 Definition natf (n : nat) : float := zf (Z.of_nat n).
-(** a checksum: the integer modulo 2^50 *)
-Definition chk (z : Z) : float := zf (Z.modulo z 1125899906842624).
+(** a checksum: the integer modulo 2^50 (two's complement for negative numbers) *)
+Definition chk (z : Z) : float := zf (Z.land z 1125899906842623).
 
 (** Jolt solver with the branch trace:
     ([status+1; vx; vy; vz; v_len_sq; bit set], trace)   status+1: 2 ok | 1 fail | 0 error *)
@@ -141,23 +141,24 @@ Definition orig_q (Y : list (V3 Q)) : option (V3 Q * list Q * list nat) :=
 
 (** *** certificate front-ends: decode, then Checker/KktZ.v *)
 Local Open Scope Z_scope.
-Definition c18_units (N : Z) (Y : list (V3 Z)) : Z := zscale_of (2 ^ N) Y.
+Definition c18_units (N : Z) (Y : list (V3 Z)) : Z := zscale_of (Z.shiftl 1 N) Y.
 Definition fnats (l : list float) : list nat :=
   map (fun f => match f2z 0 f with Some z => Z.to_nat z | None => 99%nat end) l.
 
-(** [judge N Mw tb Yf pf sub wpf qs wqf]: the three verdicts of [c18_z] for the configuration
+(** [judge N Mw Mp tb Yf pf sub wpf qs wqf]: the three verdicts of [c18_z] for the configuration
     [Yf] and returned point [pf] (all scaled by [2^N]); index lists are given as floats;
-    witness weights are multi-float expansions scaled by [2^Mw]; KKT slack [T = L^2 2^tb];
+    witness weights are multi-float expansions scaled by [2^Mw] (optimum) resp. [2^Mp] (point of
+    the hull of the returned subset nearest to [p]); KKT slack [T = L^2 2^tb];
     tolerance [L / 10^9] with [L = max(2^N, max |coordinate|)], i.e.
     1e-9 * max(1, max |coordinate|) in real units.
     The last component is a checksum of all decoded integers, which the harness
     recomputes, so that a decoding mismatch cannot go unnoticed. *)
-Definition judge (N Mw tb : Z) (Yf pf subf : list float) (wpf : list (list float))
+Definition judge (N Mw Mp tb : Z) (Yf pf subf : list float) (wpf : list (list float))
            (qsf : list float) (wqf : list (list float)) : list bool * float :=
-  match f2pts N Yf, f2pts N pf, fsum2z_list Mw wpf, fsum2z_list Mw wqf with
+  match f2pts N Yf, f2pts N pf, fsum2z_list Mp wpf, fsum2z_list Mw wqf with
   | Some Y, Some [p], Some Wp, Some Wq =>
     let L := c18_units N Y in
-    let '(a, b, c) := c18_z Y p (fnats subf) Wp (fnats qsf) Wq (L * L * 2 ^ tb) L 1000000000 in
+    let '(a, b, c) := c18_z Y p (fnats subf) Wp (fnats qsf) Wq (Z.shiftl (L * L) tb) L 1000000000 in
     ([a; b; c], chk (zsum (map (fun v => vx v + vy v + vz v) (p :: Y)) + zsum Wp + zsum Wq
                      + zsum (map Z.of_nat (fnats subf ++ fnats qsf))))
   | _, _, _, _ => ([false; false; false], 0%float)
@@ -169,6 +170,6 @@ Definition judge_bary (N Mb : Z) (Yf pf subf bf : list float) : bool * float :=
   match f2pts N Yf, f2pts N pf, f2z_list Mb bf with
   | Some Y, Some [p], Some Wb =>
     let L := c18_units N Y in
-    (bary_z Y p (fnats subf) Wb (2 ^ Mb) 1 1000000000 L 1000000000, chk (zsum Wb))
+    (bary_z Y p (fnats subf) Wb (Z.shiftl 1 Mb) 1 1000000000 L 1000000000, chk (zsum Wb))
   | _, _, _ => (false, 0%float)
   end.
